@@ -35,6 +35,12 @@ def rand_load(rng: random.Random, depth: int) -> str:
         return rand_load(rng, depth - 1) + "." + rng.choice(["x", "attr", "y"])
     if r < 0.8:
         return rand_load(rng, depth - 1) + "[" + rng.choice(["0", "1", "'k'", "'infinite'", rng.choice(NAMES)]) + "]"
+    if r < 0.86:
+        # an attribute of super(c, o), read (3.12: one LOAD_SUPER_ATTR instruction), possibly called as a method
+        base = "super(" + rand_load(rng, depth - 2) + ", " + rand_load(rng, depth - 2) + ")." + rng.choice(["x", "attr", "y"])
+        if rng.random() < 0.4:
+            base += "(" + ", ".join(rand_load(rng, depth - 2) for _ in range(rng.randint(0, 2))) + ")"
+        return base
     nargs = rng.randint(0, 2)
     return rand_load(rng, depth - 1) + "(" + ", ".join(rand_load(rng, depth - 2) for _ in range(nargs)) + ")"
 
@@ -88,7 +94,7 @@ def layout(rng: random.Random, items: List[Tuple[str, Optional[str]]], is_async:
         # a large code object: 140 global names come first, so the LOAD_GLOBAL that begins the with statement's line needs an
         # EXTENDED_ARG prefix (dis attaches the line start to the prefix)
         # (the attribute / method / global names the targets may use are touched first, so that their own indices stay small)
-        pre = pre + ["    pad = (loc.x, loc.attr, loc.y, loc.m, loc.f, f, g, h)", "    pad = [" + ", ".join(f"g{i}" for i in range(140)) + "]"]
+        pre = pre + ["    pad = (loc.x, loc.attr, loc.y, loc.m, loc.f, f, g, h, super)", "    pad = [" + ", ".join(f"g{i}" for i in range(140)) + "]"]
     if style == "one":
         stmt = [f"    {kw} " + ", ".join(parts) + ":"]
     elif style == "paren_one":
@@ -113,11 +119,18 @@ def to_term(target: str, glob: bool):
     def scope(name):
         return "global" if (glob and name == "G") else "fast"
 
+    def is_super_attr(n) -> bool:
+        return (isinstance(n, ast.Attribute) and isinstance(n.value, ast.Call) and isinstance(n.value.func, ast.Name)
+                and n.value.func.id == "super" and len(n.value.args) == 2 and not n.value.keywords
+                and not any(isinstance(a, ast.Starred) for a in n.value.args))
+
     def first_insn(n) -> str:
         """Kind of the first instruction compiled for a load expression: G = LOAD_GLOBAL (no NULL bit), GN = LOAD_GLOBAL
         with the NULL bit, P = PUSH_NULL, O = anything else."""
         if isinstance(n, ast.Name):
             return "G" if scope(n.id) == "global" else "O"
+        if is_super_attr(n):
+            return "G"                      # LOAD_GLOBAL super, without the NULL bit
         if isinstance(n, (ast.Attribute, ast.Subscript)):
             return first_insn(n.value)
         if isinstance(n, ast.Call):
@@ -126,11 +139,15 @@ def to_term(target: str, glob: bool):
             return "GN" if first_insn(n.func) == "G" else "P"
         return "O"
 
-    def expr(n):
+    def expr(n, meth=False):
         if isinstance(n, ast.Name):
             return ["var", scope(n.id), n.id], 1, n.id
         if isinstance(n, ast.Constant):
             return ["const", repr(n.value)], 1, repr(n.value)
+        if is_super_attr(n):
+            c, k1, r1 = expr(n.value.args[0])
+            o, k2, r2 = expr(n.value.args[1])
+            return ["super", meth, c, o, n.attr], 1 + k1 + k2 + 1, f"super({r1}, {r2}).{n.attr}"
         if isinstance(n, ast.Attribute):
             e, k, r = expr(n.value)
             return ["attr", e, n.attr], k + 1, f"{r}.{n.attr}"
@@ -139,7 +156,7 @@ def to_term(target: str, glob: bool):
             i, k2, r2 = expr(n.slice)
             return ["subscr", c, i], k1 + k2 + 1, f"{r1}[{r2}]"
         if isinstance(n, ast.Call):
-            f, k, r = expr(n.func)
+            f, k, r = expr(n.func, meth=True)
             # 3.12: PUSH_NULL precedes the callee unless it is a method-style call (LOAD_ATTR pushes NULL|self) or the
             # callee's first instruction is a LOAD_GLOBAL without the NULL bit (the peephole folds PUSH_NULL into it)
             pn = not (isinstance(n.func, ast.Attribute) or first_insn(n.func) == "G")
@@ -178,12 +195,12 @@ def to_term(target: str, glob: bool):
 
 
 NAME_OPS = {"LOAD_GLOBAL", "LOAD_FAST", "LOAD_NAME", "LOAD_DEREF", "STORE_GLOBAL", "STORE_FAST", "STORE_NAME", "STORE_DEREF",
-            "LOAD_FAST_CHECK", "LOAD_ATTR", "STORE_ATTR", "LOAD_METHOD"}
+            "LOAD_FAST_CHECK", "LOAD_ATTR", "STORE_ATTR", "LOAD_METHOD", "LOAD_SUPER_ATTR"}
 
 
 def canon_row(i: dis.Instruction) -> str:
     av = i.argval if (i.opname in NAME_OPS and isinstance(i.argval, str)) else ""
-    arg = i.arg if i.opname in ("UNPACK_SEQUENCE", "UNPACK_EX", "CALL") else 0
+    arg = i.arg if i.opname in ("UNPACK_SEQUENCE", "UNPACK_EX", "CALL") else (i.arg & 3) if i.opname == "LOAD_SUPER_ATTR" else 0
     rep = i.argrepr if i.opname == "LOAD_CONST" else ""
     return f"{i.opname}/{av}/{arg}/{rep}"
 
@@ -200,7 +217,7 @@ class C08(PropCheck):
             "grammar plus a list of unsupported forms, four layouts; plus the with statements of a sample of (quick: 60 files) / all of "
             "(thorough) the standard library; non-trivial = the item has an `as` target that is not a plain local name")
     manifest = {
-        "text": "Lean: a line-by-line transcription of describe_assignment_target as a total fuel-bounded symbolic stack machine (SSModel/Target.lean), a grammar of `as` targets with a model of CPython 3.12's code generation for them (compileStore, incl. PUSH_NULL placement and EXTENDED_ARG prefixes) and their source text. C08_target: for every well-formed target — names of any scope, attributes, subscripts and positional calls over arbitrarily nested load expressions, tuple unpacking of any arity nested to any depth, one starred element anywhere — the machine run on the compiled instructions, with the fuel bound the transcription uses and whatever follows, returns exactly the source text (mutual structural induction); C08_name / C08_attr / C08_subscr / C08_call / C08_tuple / C08_starred are its instances; C08_one_tuple_comma; C08_unsupported_is_none / C08_unsupported_first: an opcode outside the supported set, right away or after any load-expression prefix, makes the result None, never a wrong string. Tie: (a) the transcription is diffed against the real function on the instruction lists of generated and standard-library with statements; (b) the compiler model is diffed against dis on every generated supported target (instruction by instruction), together with the rendered text; (c) the oracle compares analyze_with_blocks with the source AST (start_line, varname).",
+        "text": "Lean: a line-by-line transcription of describe_assignment_target as a total fuel-bounded symbolic stack machine (SSModel/Target.lean), a grammar of `as` targets with a model of CPython 3.12's code generation for them (compileStore, incl. PUSH_NULL placement and EXTENDED_ARG prefixes) and their source text. C08_target: for every well-formed target — names of any scope, attributes, subscripts and positional calls over arbitrarily nested load expressions, tuple unpacking of any arity nested to any depth, one starred element anywhere — the machine run on the compiled instructions, with the fuel bound the transcription uses and whatever follows, returns exactly the source text (mutual structural induction); C08_name / C08_attr / C08_subscr / C08_call / C08_tuple / C08_starred are its instances; C08_one_tuple_comma; C08_super_attr / C08_super_subscr_example (3.12's LOAD_SUPER_ATTR: a target reading an attribute of super(c, o) -- as attribute, subscript or method call -- renders to its source text; Expr.superAttr is part of the grammar C08_target quantifies over; the repaired F57); C08_unsupported_is_none / C08_unsupported_first: an opcode outside the supported set, right away or after any load-expression prefix, makes the result None, never a wrong string. Tie: (a) the transcription is diffed against the real function on the instruction lists of generated and standard-library with statements; (b) the compiler model is diffed against dis on every generated supported target (instruction by instruction), together with the rendered text; (c) the oracle compares analyze_with_blocks with the source AST (start_line, varname).",
         "note": "That BEFORE_WITH carries the line of the with keyword, and what CPython's compiler emits for store targets, are compiler facts measured here (compileStore is a model of them for 3.12). CPython 3.12 only in this sandbox's dependency-complete interpreter; 3.9-3.11 paths are not exercised.",
     }
     assumptions = ["dis.Bytecode's argval / argrepr as in CPython 3.12", "the compiler attaches the with keyword's line to BEFORE_WITH"]
